@@ -72,8 +72,12 @@ GEN_TIE = (" Tie: S-B runs the model and the real StubsStringGenerator/generate_
            "objects and on the analysed repo test packages under both naming settings and compares every produced file byte for "
            "byte; S-E runs the whole tool (mypy + griffe) on generated packages and evaluates the property's predicate — written "
            "from the property statement against the package specification — on the parsed stubs.")
-ANA = (" The analyser side (mypy nodes -> API model) of this property is covered by the S-E oracle and by the S-A correspondence of "
-       "the analyser model (Model/Analyze.lean); the theorems of this property are about the generator.")
+ANA = (" Analyser side (mypy nodes -> API model, Model/Analyze.lean, tied by S-A): Theorems/C05a proves that the mypy-type "
+       "dispatch computes the pure specification Spec.MypyMap.mapType at every position (toAbstractNoUn_spec, position_independent, "
+       "error_enumeration, mapType_unknown_iff; incorrect_any_is_silently_Any is the kernel-checked counterexample to 'never a "
+       "silently different type'); Theorems/C06a the parameter tables (argumentKind_table, defaultOf_spec, parseParameter_fields, "
+       "parseParameters_order); Theorems/C07a completeness of the return search and coverage/soundness/order of the inferred types "
+       "(findReturns_complete, inferFromReturns_covers, inferFromReturns_members, createInferredResults_positions).")
 TEXT["C02"] = dict(
     technique="Lean 4 proof (lexical validity of every emitted token class) + exhaustive name correspondence S-N + S-B/S-E with an independent stub recogniser",
     text="Proof: Theorems/C02 proves for all inputs: escapeKeyword yields a legal identifier token and back-quotes exactly "
@@ -173,11 +177,14 @@ TEXT["C04"] = dict(
     text="Proof: Theorems/C04 proves for all API values: a function/class/attribute/method/inner class whose is_public flag is "
          "false contributes no entry to the emission log (module_top_level, private_*_not_logged), inside an inlined private "
          "base the filter is by name (inlined_methods_rule); private_enum_is_logged is the kernel-checked witness of the known "
-         "finding K04-private-enum. The publicity decision itself (_is_public, re-export forms) is part of the analyser model and "
-         "tied by S-A." + GEN_TIE + ANA_TIE + " S-E compares the is_public flags of the API JSON and the names in all stub files "
+         "finding K04-private-enum. Theorems/C04a proves the publicity decision of the analyser model as a decision table "
+         "(isPublicV_eq, isPublic_no_reexport, isPublic_false_of_private, isPublic_true_of_public, isPublicV_ok_iff), "
+         "characterises the re-export check exactly (reexport_decides_iff, reexport_never_false, no_interference) and shows where the "
+         "verdict is stored (enterFuncdef_flag, enterClassdef_flag, createAttributeV_flag); suffix_interference* are kernel-checked "
+         "witnesses that a re-export can publish an unrelated private declaration (suffix matching)." + GEN_TIE + ANA_TIE + " S-E compares the is_public flags of the API JSON and the names in all stub files "
          "with the underscore/nesting/re-export ground truth of the generated package.",
-    note=TRUST + " No theorem yet states that the analyser model's is_public equals the convention predicate (dunder exception, "
-         "private path segments, four re-export forms): that half rests on S-A + the S-E oracle.")
+    note=TRUST + " Known: K04-private-enum; publicity through suffix-matched re-exports (Theorems/C04a F04a-1/2) is outside the "
+         "S-E oracle's judged zone (declarations touched by a re-export, by the tool's own suffix rule, are not judged).")
 TEXT["C08"] = dict(
     technique="Lean 4 proof (permutation invariance of every place where the model consumes a Python set or an enumeration order) + S-R subprocess determinism runs + S-A/S-B with shuffled sets",
     text="Proof: Theorems/C08 proves, for all inputs: sorting with the model's comparators is invariant under permutation "
